@@ -21,18 +21,18 @@ Import ListNotations.
 (* ---------------------------------------------------------------- characters *)
 Definition in_range (lo hi c : char) : bool := N.leb lo c && N.leb c hi.
 
-Definition is_upper_ascii (c : char) : bool := in_range 65 90 c.
-Definition is_lower_ascii (c : char) : bool := in_range 97 122 c.
+Definition is_upper_ascii (c : char) : bool := in_range 65%N 90%N c.
+Definition is_lower_ascii (c : char) : bool := in_range 97%N 122%N c.
 Definition ascii_lower (c : char) : char := if is_upper_ascii c then (c + 32)%N else c.
 Definition ascii_upper (c : char) : char := if is_lower_ascii c then (c - 32)%N else c.
 Definition str_lower (s : str) : str := map ascii_lower s.
 Definition str_upper (s : str) : str := map ascii_upper s.
 
-Definition is_digit_char (c : char) : bool := in_range 48 57 c.
+Definition is_digit_char (c : char) : bool := in_range 48%N 57%N c.
 Definition is_word_char (c : char) : bool :=
-  in_range 48 57 c || in_range 65 90 c || in_range 97 122 c || N.eqb c 95.
+  in_range 48%N 57%N c || in_range 65%N 90%N c || in_range 97%N 122%N c || N.eqb c 95%N.
 (* str.isspace below 128: \t \n \v \f \r, \x1c-\x1f, space *)
-Definition is_space_char (c : char) : bool := in_range 9 13 c || in_range 28 32 c.
+Definition is_space_char (c : char) : bool := in_range 9%N 13%N c || in_range 28%N 32%N c.
 
 Inductive ccat := CatDigit | CatWord | CatSpace.
 
@@ -232,6 +232,24 @@ Definition re_search (r : re) (s : str) (loc : nat) : option (nat * nat) :=
 (* matched text *)
 Definition substr (s : str) (i j : nat) : str := firstn (j - i) (skipn i s).
 
+(* ---------------------------------------------------------------- specification helpers *)
+(* length of the maximal run of characters satisfying p at the head of l / from position i of s *)
+Fixpoint run_from (p : char -> bool) (l : str) : nat :=
+  match l with
+  | c :: t => if p c then S (run_from p t) else 0
+  | [] => 0
+  end.
+Definition run_len (p : char -> bool) (s : str) (i : nat) : nat := run_from p (skipn i s).
+
+(* s.startswith(w, i) for 0 <= i *)
+Fixpoint prefix_of (w l : str) : bool :=
+  match w, l with
+  | [], _ => true
+  | a :: w', b :: l' => N.eqb a b && prefix_of w' l'
+  | _ :: _, [] => false
+  end.
+Definition starts_at (s : str) (i : nat) (w : str) : bool := prefix_of w (skipn i s).
+
 (* ---------------------------------------------------------------- denotation (specification side)
    den r s i j : r can match s[i:j] in the context of s (any priority).  Used by soundness/completeness lemmas. *)
 Fixpoint iter_rel (R : nat -> nat -> Prop) (n : nat) (i j : nat) : Prop :=
@@ -268,13 +286,13 @@ Fixpoint consuming (r : re) : bool :=
   | RAt _ => false
   end.
 
-(* syntactic class for which the matcher is complete w.r.t. `den` (RegexProofs.rm_complete):
-   no lookaround, and every repetition body consumes *)
-Fixpoint plain (r : re) : bool :=
+(* syntactic class for which the matcher is sound and complete w.r.t. `den` (RegexProofs.rm_correct):
+   every repetition body consumes and bounds are ordered (lookahead and anchors are allowed) *)
+Fixpoint rep_ok (r : re) : bool :=
   match r with
   | REps | RSet _ _ _ | RAny _ | RAt _ => true
-  | RSeq a b | RAlt a b => plain a && plain b
-  | RRep _ _ _ a => plain a && consuming a
-  | RGroup _ a => plain a
-  | RLook _ _ => false
+  | RSeq a b | RAlt a b => rep_ok a && rep_ok b
+  | RRep _ lo hi a => rep_ok a && consuming a && match hi with Some h => lo <=? h | None => true end
+  | RGroup _ a => rep_ok a
+  | RLook _ a => rep_ok a
   end.
